@@ -184,6 +184,8 @@ pub struct Table {
     pub schema: Arc<Schema>,
     pub next_id: i64,
     pub hist: Vec<String>,
+    /// a ZoneMap index was (re)built or updated while a fragment it then covers had deleted rows
+    pub zm_tainted: bool,
     _dir: tempfile::TempDir,
 }
 
@@ -285,7 +287,7 @@ impl Table {
         let b = gen_batch(rng, &cols, &schema, n0, &mut next_id);
         let per_file = *rng.pick(&[4usize, 6, 100]);
         let ds = Dataset::write(RecordBatchIterator::new(vec![Ok(b)], schema.clone()), &uri, Some(WriteParams { max_rows_per_file: per_file, ..Default::default() })).await.map_err(es)?;
-        let mut t = Table { ds, cols, schema, next_id, hist: vec![format!("write {n0} rows, max_rows_per_file={per_file}")], _dir: dir };
+        let mut t = Table { ds, cols, schema, next_id, hist: vec![format!("write {n0} rows, max_rows_per_file={per_file}")], zm_tainted: false, _dir: dir };
         for c in t.cols.clone() {
             for (name, kind) in &c.indices {
                 t.ds.create_index(&[c.name.as_str()], *kind, Some(name.clone()), &ScalarIndexParams::default(), true).await.map_err(|e| format!("create_index {name} {kind:?} on {:?}: {e}", c.ty))?;
@@ -293,6 +295,13 @@ impl Table {
             }
         }
         Ok(t)
+    }
+
+    fn taint(&mut self) {
+        let has_zm = self.cols.iter().any(|c| c.indices.iter().any(|i| i.1 == IndexType::ZoneMap));
+        if has_zm && self.ds.get_fragments().iter().any(|f| f.metadata().deletion_file.is_some()) {
+            self.zm_tainted = true;
+        }
     }
 
     pub async fn step(&mut self, rng: &mut Rng) -> Result<(), String> {
@@ -330,6 +339,7 @@ impl Table {
                     1 => (OptimizeOptions::merge(rng.range(1, 3) as usize), "merge"),
                     _ => (OptimizeOptions::default(), "default"),
                 };
+                self.taint();
                 self.ds.optimize_indices(&o).await.map_err(es)?;
                 self.hist.push(format!("optimize_indices {nm}"));
             }
@@ -338,6 +348,9 @@ impl Table {
                 let cands: Vec<(String, String, IndexType)> = self.cols.iter().flat_map(|c| c.indices.iter().map(|(n, k)| (c.name.clone(), n.clone(), *k)).collect::<Vec<_>>()).collect();
                 if !cands.is_empty() {
                     let (c, n, k) = rng.pick(&cands).clone();
+                    if k == IndexType::ZoneMap {
+                        self.taint();
+                    }
                     self.ds.create_index(&[c.as_str()], k, Some(n.clone()), &ScalarIndexParams::default(), true).await.map_err(es)?;
                     self.hist.push(format!("create_index {n} (replace)"));
                 }
@@ -512,6 +525,13 @@ pub fn no_trigram_query(s: &str) -> bool {
     let folded: Vec<char> = s.chars().flat_map(|c| match c { 'Ü' | 'ü' => vec!['u'], 'ï' | 'Ï' => vec!['i'], c => c.to_lowercase().collect::<Vec<_>>() }).collect();
     !folded.windows(3).any(|w| w.iter().all(|c| c.is_ascii_alphanumeric()))
 }
+fn has_leaf_of(q: &SIdx, pred: &dyn Fn(u64) -> bool) -> bool {
+    match q {
+        SIdx::Not(x) => has_leaf_of(x, pred),
+        SIdx::And(a, b) | SIdx::Or(a, b) => has_leaf_of(a, pred) || has_leaf_of(b, pred),
+        SIdx::Query { idx, .. } => pred(*idx),
+    }
+}
 fn has_text_leaf(q: &SIdx) -> bool {
     match q {
         SIdx::Not(x) => has_text_leaf(x),
@@ -563,6 +583,8 @@ pub async fn check_pred(t: &Table, sql: &str, rows: &[(u64, u64, Row)], info: &I
         _ => None,
     };
     let k4 = real_sq.as_ref().map(|q| has_text_leaf(q)).unwrap_or(false) && optimized.as_ref().map(|e| contains_literals(e).iter().any(|x| no_trigram_query(x))).unwrap_or(false);
+    let is_zm = |i: u64| names.get(i as usize).map(|n| t.cols.iter().any(|c| c.indices.iter().any(|x| &x.0 == n && x.1 == IndexType::ZoneMap))).unwrap_or(false);
+    let k5 = t.zm_tainted && real_sq.as_ref().map(|q| has_leaf_of(q, &is_zm)).unwrap_or(false);
     let k3 = real_sq.as_ref().map(|q| has_bitmap_inverted(q, &|i| ixs.iter().any(|x| x.n == i && x.bitmap))).unwrap_or(false);
     match (&with, &without) {
         (Ok(a), Ok(b)) => {
@@ -570,10 +592,11 @@ pub async fn check_pred(t: &Table, sql: &str, rows: &[(u64, u64, Row)], info: &I
                 sink.oracle_ok();
                 sink.count(if k1 || k2 || k3 { "e2e:equal-though-in-class" } else { "e2e:equal" });
             } else {
-                let class = if k4 { Some("ngram_no_trigram_query") } else if k1 { Some("not_over_nullable") } else if k2 { Some("range_bounds_swapped") } else { None };
+                let class = if k5 { Some("zonemap_rows_not_contiguous") } else if k4 { Some("ngram_no_trigram_query") } else if k1 { Some("not_over_nullable") } else if k2 { Some("range_bounds_swapped") } else { None };
                 sink.count(match class {
                     Some("not_over_nullable") => "e2e:DIFF-class-not_over_nullable",
                     Some("ngram_no_trigram_query") => "e2e:DIFF-class-ngram_no_trigram_query",
+                    Some("zonemap_rows_not_contiguous") => "e2e:DIFF-class-zonemap_rows_not_contiguous",
                     Some(_) => "e2e:DIFF-class-range_bounds_swapped",
                     None => "e2e:DIFF-unlisted",
                 });
@@ -645,7 +668,7 @@ pub async fn corpus(st: &mut Streams, sink: &mut Sink) -> Result<(), String> {
     let dir = tempfile::tempdir().map_err(es)?;
     let uri = dir.path().join("t").to_string_lossy().to_string();
     let ds = Dataset::write(RecordBatchIterator::new(vec![Ok(batch)], schema.clone()), &uri, None).await.map_err(es)?;
-    let mut t = Table { ds, cols, schema, next_id: 6, hist: vec!["corpus: x = [1,5,NULL,7,NULL,5], b = [t,f,NULL,t,NULL,f]".into()], _dir: dir };
+    let mut t = Table { ds, cols, schema, next_id: 6, hist: vec!["corpus: x = [1,5,NULL,7,NULL,5], b = [t,f,NULL,t,NULL,f]".into()], zm_tainted: false, _dir: dir };
     t.ds.create_index(&["x"], IndexType::BTree, Some("x_ix".into()), &ScalarIndexParams::default(), true).await.map_err(es)?;
     t.ds.create_index(&["b"], IndexType::Bitmap, Some("b_ix".into()), &ScalarIndexParams::default(), true).await.map_err(es)?;
     t.ds.create_index(&["y"], IndexType::Bitmap, Some("y_ix".into()), &ScalarIndexParams::default(), true).await.map_err(es)?;
